@@ -354,3 +354,19 @@ pub fn g_generic(x: u8, _y: u8) -> u32 { let c = Cell::new(0); consume(G(&c, 4))
 pub fn g_moved(x: u8, _y: u8) -> u32 { let c = Cell::new(0); { let a = G(&c, 1); let b = G(&c, 2); let keep = if x & 1 == 0 { a } else { b }; c.set(c.get() + 100); let _k2 = keep; } c.get() }
 pub fn g_replace(x: u8, _y: u8) -> u32 { let c = Cell::new(0); { let mut s = Some(G(&c, 1)); if x & 1 == 0 { s = None; } c.set(c.get() + 50); let old = core::mem::replace(&mut s, Some(G(&c, 2))); c.set(c.get() + 1); drop(old); } c.get() }
 pub fn g_early_return(x: u8, _y: u8) -> u32 { fn inner(c: &Cell<u32>, x: u8) -> u32 { let _a = G(c, 1); if x < 50 { return 9; } let _b = G(c, 2); if x < 100 { return 8; } 7 } let c = Cell::new(0); let r = inner(&c, x); c.get() * 10 + r }
+
+// ---- eighth batch: compiler-generated Clone of tuples / closures / arrays (CloneShim): Copy => bitwise, else field-wise through each Clone impl
+#[derive(Clone, Copy, PartialEq, Debug)]
+struct CopyFold { l: bool, r: bool }
+#[derive(PartialEq, Debug)]
+struct Lossy { keep: u8, drop_me: u8 }
+impl Clone for Lossy { fn clone(&self) -> Self { Lossy { keep: self.keep, drop_me: 0 } } }
+#[derive(Clone, PartialEq, Debug)]
+struct Plain { a: u8, b: u8 }
+static ROWS: [(u8, Plain); 3] = [(1, Plain { a: 10, b: 11 }), (2, Plain { a: 20, b: 21 }), (3, Plain { a: 30, b: 31 })];
+pub fn k_tuple_cloned(x: u8, _y: u8) -> u32 { ROWS.iter().find(|(k, _)| *k == x & 3).cloned().map_or(7, |(k, p)| k as u32 + p.a as u32 * 256 + p.b as u32 * 65536) }
+pub fn k_tuple_lossy(x: u8, y: u8) -> u32 { let t = (x, Lossy { keep: y, drop_me: x }); let c = t.clone(); c.0 as u32 + c.1.keep as u32 * 256 + c.1.drop_me as u32 * 65536 + t.1.drop_me as u32 * 0x100_0000 }
+pub fn k_closure_lossy(x: u8, y: u8) -> u32 { let l = Lossy { keep: x, drop_me: y }; let f = move |z: u8| l.keep as u32 + l.drop_me as u32 * 256 + z as u32 * 65536; let g = f.clone(); f(1) ^ g(2).rotate_left(3) }
+pub fn k_closure_copy(x: u8, y: u8) -> u32 { let s = CopyFold { l: x & 1 != 0, r: y & 1 != 0 }; let f = move || (s.l as u32) | (s.r as u32) << 1; let g = f.clone(); let h = f; g() + h() * 4 }
+pub fn k_array_clone(x: u8, y: u8) -> u32 { let a = [Lossy { keep: x, drop_me: 1 }, Lossy { keep: y, drop_me: 2 }]; let b = a.clone(); b[0].keep as u32 + b[1].keep as u32 * 256 + (b[0].drop_me + b[1].drop_me + a[1].drop_me) as u32 * 65536 }
+pub fn k_nested_clone(x: u8, y: u8) -> u32 { let t = ((x, Plain { a: y, b: x }), [Lossy { keep: y, drop_me: 9 }], 5u8); let c = t.clone(); (c.0).0 as u32 + (c.0).1.a as u32 * 256 + c.1[0].keep as u32 * 65536 + (c.1[0].drop_me as u32 + c.2 as u32) * 0x100_0000 }
